@@ -282,6 +282,54 @@ def exhaustive_aggregators(ctx, pending):
                                 ('rows', [dict(target[0], out=got)], [])))
 
 
+def key_rendering(ctx):
+    """the key is the rendered text: values that compare equal in Python but render differently (1.1 / 1.10, 1 / 1.0 /
+    True, 0.0 / -0.0) are different keys; values that render alike are the same key"""
+    import decimal
+    rep = ctx.report
+    D = decimal.Decimal
+    groups = {
+        'decimal-scale': [D('1.1'), D('1.10'), D('1.2'), D('2.5'), D('2.50')],
+        'int-float-bool': [1, 1.0, True, 0, False, 0.0],
+        'signed-zero': [0.0, -0.0, 1.5],
+        'text-vs-number': ['1', 1, '1.0', 1.0],
+    }
+    for gname, keys in groups.items():
+        for order in ('as-listed', 'reversed'):
+            ks = list(keys) if order == 'as-listed' else list(reversed(keys))
+            source = [{'k': k, 'v': i} for i, k in enumerate(ks)] + [{'k': ks[0], 'v': 100}]
+            target = [{'k': k, 't': i} for i, k in enumerate(ks)]
+            case = {'key-rendering': gname, 'order': order, 'keys': [repr(k) for k in ks]}
+            for how in ('join', 'dedup'):
+                try:
+                    with quiet():
+                        if how == 'join':
+                            res = Flow(copy.deepcopy(source), copy.deepcopy(target),
+                                       DF.join('res_1', ['k'], 'res_2', ['k'],
+                                               {'first_v': {'name': 'v', 'aggregate': 'first'}, 'n': {'name': 'v', 'aggregate': 'count'}},
+                                               mode='half-outer')).results(on_error=None)[0][0]
+                        else:
+                            res = Flow(copy.deepcopy(source),
+                                       DF.join_with_self('res_1', ['k'], {'k': None, 'n': {'name': 'v', 'aggregate': 'count'}}))\
+                                .results(on_error=None)[0][0]
+                except Exception as e:  # noqa
+                    rep.case('key-rendering', case, nontrivial=False)
+                    rep.fail('key-rendering:%s:raises' % how, case, repr(e)[:300])
+                    continue
+                rep.case('key-rendering:' + how, case, key=[gname, order, how])
+                by_text = {}
+                for r in source:
+                    by_text.setdefault(render(['k'], r, 0), []).append(r)
+                if how == 'join':
+                    want = [(render(['k'], t, 0), by_text[render(['k'], t, 0)][0]['v'], len(by_text[render(['k'], t, 0)])) for t in target]
+                    got = [(render(['k'], r, 0), r.get('first_v'), r.get('n')) for r in res]
+                else:
+                    want = sorted((txt, len(rs)) for txt, rs in by_text.items())
+                    got = sorted((render(['k'], r, 0), r.get('n')) for r in res)
+                if got != want:
+                    rep.fail('key-rendering:%s:%s' % (how, gname), case, {'expected': repr(want)[:400], 'got': repr(got)[:400]})
+
+
 def typed_values(ctx):
     """values of every cell type through the (on-disk capable) index: what a value-carrying aggregate returns IS one of
     the source values - same type, same sub-second part, same UTC offset"""
@@ -361,6 +409,7 @@ def run(ctx):
     exhaustive_aggregators(ctx, pending)
     with quiet():
         typed_values(ctx)
+        key_rendering(ctx)
     for _ in range(ctx.n(1, 4)):
         join_case(ctx, rng, pending, big=True)
     if ctx.model.available():
